@@ -111,3 +111,35 @@ fn client_delete(it: &mut ResponseIterator) -> (r: Result<(), Error>)
     proof { assert(r2.is_err() && it.pp() == it1.pp() && it.rr_iterator.offset.is_none()); }
     r
 }
+
+// C08/C09: insertion of a pointer-free non-OPT record into a record section of a pointer-free packet keeps the object invariant;
+// the record lands at the end of its section
+fn client_insert(pp: &mut ParsedPacket, section: Section, rr: RR) -> (r: Result<(), Error>)
+    requires old(pp).wf(), !old(pp).maybe_compressed, pf_packet(old(pp).bytes()), is_rsec(section),
+        pf_rr(rr.packet@, 0), pf_end(rr.packet@, 0) == rr.packet@.len(), !pf_is_opt(rr.packet@, 0), rr.packet@.len() <= 0x10000,
+    ensures
+        final(pp).wf(), !final(pp).maybe_compressed, pf_packet(final(pp).bytes()),
+        r.is_err() ==> final(pp).bytes() == old(pp).bytes(),
+        r.is_ok() ==> ({ let u = old(pp).bytes(); let v = final(pp).bytes(); let si = sec_idx(section); let st = sec_st(u, si); let n = sec_n(u, si);
+            final(pp).bytes().len() <= 8192 && sec_n(v, si) == n + 1 && sec_st(v, si) == st && pf_rrs_end(v, st, n) == pf_rrs_end(u, st, n)
+            && pf_rr(v, pf_rrs_end(u, st, n)) && pf_end(v, pf_rrs_end(u, st, n)) == pf_rrs_end(u, st, n) + rr.packet@.len() }),
+{
+    hide(pf_rr); hide(pf_rrs); hide(pf_rrs_end); hide(pf_n_opt); hide(pf_packet); hide(opt_at); hide(pcs_walk); hide(rec_ok); hide(opts); hide(wf_bytes); hide(recs_all); hide(sec_end); hide(n_opt);
+    hide(ParsedPacket::wf); hide(walk); hide(skip_walk); hide(inserted);
+    let ghost pp0 = *pp; let ghost rrb = rr.packet@; let ghost si = sec_idx(section);
+    proof { assert(unc_keeps_edns(pp0)); assert(!(section is Edns)); }
+    let r = pp.insert_rr(section, rr);
+    proof {
+        if r.is_ok() {
+            let mid = choose|mid: ParsedPacket| #[trigger] after_unc(mid, pp0) && inserted(*pp, mid, section, rrb);
+            lemma_wf_eq(mid, pp0);
+            assert(sec_n(mid.bytes(), si) < 0xffff) by { reveal(inserted); }
+            lemma_inserted_wf(*pp, mid, si, rrb);
+            assert(!pp.maybe_compressed) by { reveal(inserted); }
+        } else {
+            assert(pp_eq(*pp, pp0));
+            lemma_wf_eq(*pp, pp0);
+        }
+    }
+    r
+}
